@@ -11,11 +11,16 @@ Driver for component `deflate` (property C19).  Script on stdin, one op per line
     offer <level> <hex> [<hex>]   -> offer acc= cmw= cnc= smw= snc= resp=<hex|->
                                      header value, optionally the bytes that follow it in memory
     outloop <total> <len>         -> outloop have=<n> chunks=<off:len:size,…>     (model only)
-    comp <len> <hexfull>          -> comp ret=<n> out=<hex> tail=<0|1>  |  comp WILD
-                                     websocket_compress on a payload of <len> bytes for which zlib emits <hexfull>
-                                     (the harness measures <hexfull> on a copy of the real deflate stream)
+    comp <level> <len> <size> <hexfull|ERR>
+                                  -> comp ret=<n> out=<hex> tail=<0|1>  |  comp WILD
+                                     websocket_compress_bounded at this level on a payload of <len> bytes with a
+                                     destination of <size> bytes, for which zlib emits <hexfull> (ERR: deflate()
+                                     fails); the harness measures <hexfull> on a copy of the real deflate stream.
+                                     Level 0 copies the payload (given as <hexfull>).
+    reads <level> <hex> [<hex>]   -> reads n=<count> max=<highest index read|-> len=<length> ok=<0|1>   (model only)
+                                     the indices of the header value the offer parser reads, element by element
 
-Ops of the harness that have no model counterpart (rt, dec, mut, comp, offerx) are answered with `-`.
+Ops of the harness that have no model counterpart (rt, dec, mut, offerx) are answered with `-`.
 `drv_deflate consts` prints the regenerated constants the model uses.
 -/
 namespace Cjet.Drv.Deflate
@@ -49,11 +54,36 @@ def outloopLine (total len : Nat) : String :=
   let chunks := ",".intercalate (r.1.map fun c => s!"{c.off}:{c.len}:{c.size}")
   s!"outloop have={outHave total s0} chunks={chunks}"
 
-def compLine (len : Nat) (full : Bytes) : String :=
-  match compress (fun _ => full) (List.replicate len 0) with
+def compLine (level len size : Nat) (full : Option Bytes) : String :=
+  let r := if level == 0 then compressCopy compressStrict size (full.getD [])
+           else compressNow (fun _ => full) size (List.replicate len 0)
+  match r with
   | .error => "comp ret=-1 out=- tail=0"
   | .wild => "comp WILD"
-  | .ok out t => s!"comp ret={out.length} out={Hex.ofBytes out} tail={b2n t}"
+  | .ok out t => s!"comp ret={out.length} out={Hex.ofBytes out} tail={b2n (t && level != 0)}"
+
+/-- the reads of one header value: every element through `fillReads`, relative to the element -/
+def readsLine (level : Nat) (value after : Bytes) : String :=
+  let mem := value ++ after
+  -- the elements as `extLoop` cuts them: (start, n)
+  let rec elems (fuel start length : Nat) (acc : List (Nat × Nat)) : List (Nat × Nat) :=
+    match fuel with
+    | 0 => acc
+    | fuel + 1 =>
+      if length = 0 then acc
+      else
+        let c := rd mem start
+        if !isSpace c && c != chComma then
+          let n := scanComma mem start length
+          if n < length then elems fuel (start + n) (length - n) (acc ++ [(start, n)]) else acc ++ [(start, n)]
+        else elems fuel (start + 1) (length - 1) acc
+  let es := elems (value.length + 1) 0 value.length []
+  let e0 := Ext.init level
+  let all := es.map fun (st, n) => ((fillReads e0 (mem.drop st) n), n)
+  let cnt : Nat := all.foldl (fun a r => a + r.1.length) 0
+  let ok := all.all fun r => r.1.all fun i => decide (i < r.2)
+  let mx : Nat := all.foldl (fun a r => r.1.foldl (fun b i => max b (i + 1)) a) 0
+  s!"reads n={cnt} max={if mx = 0 then "-" else toString (mx - 1)} elems={es.length} ok={b2n ok}"
 
 def stepLine (_ : Unit) (line : String) : Unit × List String :=
   let out := match words line with
@@ -71,9 +101,15 @@ def stepLine (_ : Unit) (line : String) : Unit × List String :=
     | ["offer", lv, v, a] => match lv.toNat?, Hex.toBytes? v, Hex.toBytes? a with
       | some n, some bs, some af => offerLine n bs af
       | _, _, _ => "ERROR bad args"
-    | ["comp", l, f] => match l.toNat?, Hex.toBytes? f with
-      | some n, some bs => compLine n bs
+    | ["comp", lv, l, sz, f] => match lv.toNat?, l.toNat?, sz.toNat?, (if f == "ERR" then some none else (Hex.toBytes? f).map some) with
+      | some lvn, some n, some szn, some full => compLine lvn n szn full
+      | _, _, _, _ => "ERROR bad args"
+    | ["reads", lv, v] => match lv.toNat?, Hex.toBytes? v with
+      | some n, some bs => readsLine n bs []
       | _, _ => "ERROR bad args"
+    | ["reads", lv, v, a] => match lv.toNat?, Hex.toBytes? v, Hex.toBytes? a with
+      | some n, some bs, some af => readsLine n bs af
+      | _, _, _ => "ERROR bad args"
     | ["outloop", t, l] => match t.toNat?, l.toNat? with
       | some a, some b => outloopLine a b
       | _, _ => "ERROR bad args"
@@ -83,7 +119,7 @@ def stepLine (_ : Unit) (line : String) : Unit × List String :=
 def run (args : List String) : IO UInt32 := do
   match args with
   | ["consts"] =>
-    IO.println s!"reasmGrowLoops={reasmGrowLoops} reasmNoBufferGuard={reasmNoBufferGuard} responseMax={responseMax} factor={reasmFactor} header={reasmHeader} slack={reasmSlack}"
+    IO.println s!"reasmGrowLoops={reasmGrowLoops} reasmNoBufferGuard={reasmNoBufferGuard} compressStrict={compressStrict} sendChecked={sendChecked} flushMarkerMax={flushMarkerMax} flushSpare={flushSpare} responseMax={responseMax} factor={reasmFactor} header={reasmHeader} slack={reasmSlack}"
     return 0
   | [] =>
     Cjet.runLines stepLine ()
